@@ -406,6 +406,27 @@ fn oracle_c07(sc: &Scenario, o: &Outcome) -> Verdict {
     }
 }
 
+/// C14 over the real transports: the hello or a reply is cut short and the peer then goes away.
+/// The affected calls must return an error in bounded time; a receive loop that keeps polling a
+/// dead stream is caught by the worker watchdog.
+pub(crate) fn truncated_then_closed(ctx: &mut Ctx) -> Verdict {
+    let kind = KINDS[ctx.tape.weighted(&[4, 4, 3])];
+    let closes = close_kinds(kind);
+    let close = closes[ctx.pick(closes.len())];
+    let point = if ctx.pick(3) == 0 { Point::InsideHello } else { Point::InsideReply };
+    let outstanding = 1 + ctx.pick(3);
+    let cut = ctx.pick(400);
+    let sc = disconnect_scenario(kind, point, outstanding, close, cut);
+    ev!(ctx, "scenario {}/{}", sc.kind.name(), sc.label);
+    let o = run_scenario(ctx, &sc);
+    ev!(ctx, "establish {:?} results {:?} extra {:?}", o.establish, o.results, o.extra);
+    ctx.sim_time_ns = o.virt_ns;
+    ctx.nontrivial = true;
+    ctx.count(&format!("runs.real-transport.{}", sc.kind.name()));
+    ctx.count("fault.message_cut_short_then_peer_gone_on_real_transport");
+    oracle_c07(&sc, &o)
+}
+
 fn run_c07(ctx: &mut Ctx) -> Verdict {
     let sc = match ctx.enum_index {
         Some(i) => match c07_enumerated(i as usize) {
